@@ -196,6 +196,9 @@ def h_string(params, vals, ctx):
         s = s + ch
     s = s + right
     text = d + ' "' + left + "".join("{S_%d}" % (i + 1) for i in range(n)) + right + '"\n'
+    if params.get("after_charset"):
+        # the charset is an input of one assembly: an earlier assembly of this process with another charset leaves no trace
+        assemble([("e.mac", '.ascii "\u044f\u0416a"\n.asciz "b"\n')], {}, route=ctx.route, charset=params["after_charset"])
     o = assemble([("a.mac", text)], vals, route=ctx.route, charset=cs)
     ctx.observe_outcome(o)
     ctx.reach(o.status in ("ok", "failed"))
@@ -407,6 +410,9 @@ def obligations(tier, seed):
                 continue
             obs.append(Ob(oid=f"string/{cs}/{d}/a?b", harness=HS, params={"charset": cs, "dir": d, "left": "a", "right": "b", "realise": cs == "bk"},
                           vars={"S_1": "str"}, timeout=900, per_path=60, pre=f"one character in windows {WINDOWS[cs]}"))
+    for cs, before in (("cp866", "koi8-r"), ("utf-8", "cp866"), ("bk", "utf-8"), ("latin-1", "bk"), ("koi8-r", "utf-8")):
+        obs.append(Ob(oid=f"string/{cs}/.ascii/a?b/after-{before}", harness=HS, params={"charset": cs, "dir": ".ascii", "left": "a", "right": "b", "realise": cs == "bk", "after_charset": before},
+                      vars={"S_1": "str"}, timeout=900, per_path=60, pre=f"one character in windows {WINDOWS[cs]}; an assembly with charset {before} ran first in the same process"))
     obs.append(Ob(oid="string/utf-8/.ascii/2sym", harness=HS,
                   params={"charset": "utf-8", "dir": ".ascii", "nsym": 2, "windows": [(0x20, 0x30), (0x7C, 0x84), (0x7FC, 0x804)]},
                   vars={"S_1": "str", "S_2": "str"}, timeout=900, pre="two symbolic characters around the UTF-8 length boundaries"))
